@@ -83,7 +83,6 @@ fn nth_slice(idx: i32, a: &i32, b: &i32, rest_matches: bool) -> (r: bool) //@w
                     // range, so idx - b doesn't always fit.
                     let idx_offset = idx as i64 - *b as i64;
                     let a = *a as i64;
-                    assert(a == a0 && idx_offset == idx - *b); //@w
                     if a == 0 {
                         return idx_offset == 0 && rest_matches;
                     }
